@@ -709,3 +709,145 @@ pub fn execute_stress(s: &StressScenario) -> Result<CaseReport, Failure> {
   rep.class("topic_subscription_churn_threads");
   Ok(rep)
 }
+
+// ------------------------------------------------------------------------------------------
+// E4-topic, second family: several receivers race to subscribe to a topic nobody has used
+// before (the dispatcher creates the topic's subscriber list on first use), then one message is
+// published and every receiver must obtain it.  Rounds are sequenced by atomics, so the
+// outcome of each round is determined: every subscribe() returned before the publish began.
+
+#[derive(Clone, Debug, Serialize, Deserialize)]
+pub struct FreshScenario {
+  pub receivers: u8,
+  pub rounds: u32,
+  /// receivers use the async handle form
+  pub async_rx: bool,
+  /// unsubscribe again at the end of each round
+  pub unsubscribe: bool,
+}
+
+pub fn fresh_strategy() -> BoxedStrategy<FreshScenario> {
+  (2u8..=4, 300u32..1500, any::<bool>(), any::<bool>()).prop_map(|(receivers, rounds, async_rx, unsubscribe)| FreshScenario { receivers, rounds, async_rx, unsubscribe }).boxed()
+}
+
+pub fn execute_fresh(s: &FreshScenario) -> Result<CaseReport, Failure> {
+  use std::sync::atomic::{AtomicBool, AtomicU32, AtomicU64, Ordering};
+  use std::sync::Mutex;
+  let (tx, rx0) = topic::channel::<u32, u64>(8);
+  let gate = Arc::new(AtomicU32::new(0)); // round r may start when gate == r + 1
+  let ready = Arc::new(AtomicU64::new(0));
+  let published = Arc::new(AtomicU32::new(0));
+  let consumed = Arc::new(AtomicU64::new(0));
+  let abort = Arc::new(AtomicBool::new(false));
+  let failure: Arc<Mutex<Option<Failure>>> = Arc::new(Mutex::new(None));
+  let n = s.receivers as u64;
+  let spin = |cond: &dyn Fn() -> bool, abort: &AtomicBool| {
+    let mut k = 0u32;
+    while !cond() {
+      if abort.load(Ordering::Relaxed) {
+        return false;
+      }
+      k += 1;
+      if k % 256 == 0 {
+        std::thread::yield_now();
+      } else {
+        std::hint::spin_loop();
+      }
+    }
+    true
+  };
+  let mut joins = Vec::new();
+  for i in 0..s.receivers {
+    let rx = rx0.clone();
+    let (gate, ready, published, consumed, abort, failure) = (gate.clone(), ready.clone(), published.clone(), consumed.clone(), abort.clone(), failure.clone());
+    let sc = s.clone();
+    joins.push(std::thread::spawn(move || {
+      enum R {
+        S(topic::TopicReceiver<u32, u64>),
+        A(topic::AsyncTopicReceiver<u32, u64>),
+      }
+      let rx = if sc.async_rx { R::A(rx.to_async()) } else { R::S(rx) };
+      for r in 0..sc.rounds {
+        if !spin(&|| gate.load(Ordering::Acquire) > r, &abort) {
+          break;
+        }
+        match &rx {
+          R::S(x) => x.subscribe(r),
+          R::A(x) => x.subscribe(r),
+        }
+        ready.fetch_add(1, Ordering::AcqRel);
+        if !spin(&|| published.load(Ordering::Acquire) > r, &abort) {
+          break;
+        }
+        let got = match &rx {
+          R::S(x) => x.try_recv(),
+          R::A(x) => x.try_recv(),
+        };
+        // C08: "A topic receiver obtains exactly the messages published to topics it is
+        // subscribed to at publish time ... the only permitted omission is the newest message
+        // for a receiver whose mailbox is full" (capacity 8, at most one message buffered)
+        match got {
+          Ok((t, v)) if t == r && v == r as u64 => {}
+          other => {
+            let mut g = failure.lock().unwrap();
+            if g.is_none() {
+              *g = Some(Failure::new(
+                "C08",
+                "E4/topic/try_recv/missing_message_after_racing_first_subscribe",
+                format!("round {r}: receiver {i} had subscribed to the fresh topic {r} before the publish began ({} receivers subscribing to it concurrently), its mailbox was empty, but try_recv returned {:?}", sc.receivers, other),
+              ));
+            }
+            abort.store(true, Ordering::Relaxed);
+            break;
+          }
+        }
+        if sc.unsubscribe {
+          match &rx {
+            R::S(x) => x.unsubscribe(&r),
+            R::A(x) => x.unsubscribe(&r),
+          }
+        }
+        consumed.fetch_add(1, Ordering::AcqRel);
+      }
+      if abort.load(Ordering::Relaxed) {
+        match rx {
+          R::S(x) => std::mem::forget(x),
+          R::A(x) => std::mem::forget(x),
+        }
+      }
+    }));
+  }
+  for r in 0..s.rounds {
+    gate.store(r + 1, Ordering::Release);
+    if !spin(&|| ready.load(Ordering::Acquire) >= n * (r as u64 + 1), &abort) {
+      break;
+    }
+    if tx.send(r, r as u64).is_err() {
+      let mut g = failure.lock().unwrap();
+      if g.is_none() {
+        *g = Some(Failure::new("C08", "E4/topic/send/closed_but_open", format!("round {r}: send failed although receivers are alive")));
+      }
+      abort.store(true, Ordering::Relaxed);
+      break;
+    }
+    published.store(r + 1, Ordering::Release);
+    if !spin(&|| consumed.load(Ordering::Acquire) >= n * (r as u64 + 1), &abort) {
+      break;
+    }
+  }
+  for j in joins {
+    let _ = j.join();
+  }
+  if let Some(f) = failure.lock().unwrap().take() {
+    std::mem::forget(tx);
+    std::mem::forget(rx0);
+    return Err(f);
+  }
+  drop(tx);
+  drop(rx0);
+  let mut rep = CaseReport::new();
+  rep.nontrivial = true;
+  rep.executions = s.rounds as u64;
+  rep.class("topic_fresh_topic_subscribe_race_threads");
+  Ok(rep)
+}
